@@ -211,7 +211,7 @@ def _json_case_lean(ck: Check, drv, torch, case, tag, out, model, impl):
     if impl_leaf != model_leaf:
         ck.mismatch("taxon -> leaf index map differs", {"case": case, "impl": impl_leaf, "model": model_leaf})
     pat = G.lean_pat(drv, case)
-    dt = G.DATATYPES[case["datatype"]]
+    dt = G.dt_of(case)
     S = dt["S"]
     tips_ok = False
     if pat is None:
@@ -228,16 +228,10 @@ def _json_case_lean(ck: Check, drv, torch, case, tag, out, model, impl):
         # the tip data the model object holds (first n entries of .partials), per taxon index and pattern
         if case.get("use_tip_states"):
             impl_tips = [[int(v) for v in model.partials[i].tolist()] for i in range(n)]
-            if case["datatype"] == "codon":
-                lean_tips = [[dt["state"](s) for s in row] for row in pat["rows"]]
-            else:
-                lean_tips = pat["states"]
+            lean_tips = pat["states"]
         else:
             impl_tips = [[[int(v) for v in col] for col in model.partials[i].t().tolist()] for i in range(n)]
-            if case["datatype"] == "codon":
-                lean_tips = [[[int(v) for v in dt["vec"](s, True)] for s in row] for row in pat["rows"]]
-            else:
-                lean_tips = pat["part"]
+            lean_tips = pat["part"]
         # canonical form: the multiset of (tip data of taxon 0..n-1, weight) — the order in which patterns are
         # stored is not observable through the likelihood, the assignment of rows to taxon indices is
         def canon(tips, weights):
@@ -450,6 +444,19 @@ def run(ck: Check):
                     case = G.gen_case(rng, n, subst=rng.choice(["JC69", "HKY", "GTR", "GeneralNonSymmetric"]),
                                       tip_states=ts, use_amb=ua, use_amb_fixed=True, special=True, nsites=rng.randint(2, 5))
                     run_case(ck, drv, torch, case, failures, f"ambiguity-stress/amb={ua}/tipstates={ts}")
+        # ---- every genetic code shipped (MG94), GeneralDataType with user-supplied codes / ambiguity map, and
+        #      SitePattern.indices column selections: Lean patterns + tip vectors, float run, brute-force oracle
+        for k in range(len(G.GENETIC_CODES)):
+            for ts in ((False, True) if thorough else (rng.random() < 0.5,)):
+                case = G.gen_case(rng, 3, subst="MG94", site=rng.choice(["constant", "weibull"]), genetic_code=k, tip_states=ts,
+                                  nsites=rng.randint(2, 3))
+                run_case(ck, drv, torch, case, failures, f"genetic-code/{G.GENETIC_CODES[k][0].replace(' ', '-')}")
+        for _ in range(60 if thorough else 14):
+            case = G.gen_case(rng, rng.choice([3, 4, 5]), general=True, nsites=rng.randint(3, 7), indices=rng.random() < 0.3)
+            run_case(ck, drv, torch, case, failures, "general-datatype/" + case["subst"]["kind"])
+        for _ in range(80 if thorough else 16):
+            case = G.gen_case(rng, rng.choice([3, 4, 5]), subst=rng.choice(["JC69", "HKY", "GTR", "LG"]), indices=True)
+            run_case(ck, drv, torch, case, failures, "site-pattern-indices")
         # ---- accuracy on large trees with MIXED columns: a few well-behaved columns plus one whose site likelihood lies in
         #      the float64 denormal range without flushing to zero; reference = pruning in mpmath (unbounded range)
         plan = [("balanced", 256, False), ("balanced", 256, True)]
